@@ -130,7 +130,7 @@ theorem updateFrom_ids (o : RenderOptions) : Pres IdsNodup (updateFrom o) := by
 theorem registry_stays_duplicate_free (env : Env) (fuel : Nat) (src : Str) (o : RenderOptions) (s : Session)
     (h : s.ids.Nodup) (out : Str) (s' : Session) (hr : (apiRender env fuel src o).run s = .ok (out, s')) :
     s'.ids.Nodup := by
-  have hd := (mkRec_ids env fuel).2 src
+  have hd := (mkRec_ids env fuel).2 0 src
   have hu := updateFrom_ids o
   have key : Pres IdsNodup (apiRender env fuel src o) := by
     apply Pres.start; intro s0 s hcur
